@@ -813,6 +813,20 @@ func diaCase(g *hc.Gen, o *hc.Out, dir string) {
 		u.rows = append(u.rows, append([]cell(nil), u.rows[1]...))
 		u.rows[len(u.rows)-1][1] = mkCell(value.NewString("NEW"))
 		d.positions = writerPositionsPlain(u, d)
+		if pendingFixedAuto && g.Intn(2) == 0 {
+			// a file laid out for, and read with, AUTOMATIC positions (F112: the updated file was written with the
+			// detected positions and lost the blank between the columns)
+			d.positions = nil
+			plain := []string{"a", "bc", "Q", "12", "v-1", "k", "abc"}
+			for i := range t.rows {
+				for j := 1; j < len(t.rows[i]); j++ {
+					t.rows[i][j] = mkCell(value.NewString(plain[g.Intn(len(plain))]))
+				}
+			}
+			if d.lb == text.CR {
+				d.lb = text.LF // F24 cr_line_break_automatic_positions
+			}
+		}
 	}
 	if (f == option.JSON || f == option.JSONL) && !jsonLineBreakChecked {
 		d.lb = text.LF // the session default, see jsonLineBreakChecked
@@ -955,7 +969,11 @@ func diaRun(o *hc.Out, dir string, t *table, d opts, withEnd bool, importEnc tex
 	o.NonTrivial("dia|" + d.sig() + "|" + b01(withEnd) + "|" + encName(importEnc) + "|" + b01(diaViaTableObject) + b01(sessionOpposite))
 	o.Count("dia:encoding:" + encName(d.enc) + ":named_" + encName(importEnc) + ":object" + b01(diaViaTableObject))
 	if uerr != nil {
-		lawFail(o, "dialect:"+name+":update_failed", replay(map[string]interface{}{"error": firstLine(uerr.Error())}))
+		law := "update_failed"
+		if f == option.FIXED && d.positions == nil {
+			law = "automatic_positions_update_refused" // the detected positions have become the table's explicit ones
+		}
+		lawFail(o, "dialect:"+name+":"+law, replay(map[string]interface{}{"error": firstLine(uerr.Error())}))
 		return
 	}
 	after, err := os.ReadFile(filepath.Join(dir, fname))
@@ -992,6 +1010,22 @@ func diaRun(o *hc.Out, dir string, t *table, d opts, withEnd bool, importEnc tex
 		// which convention was lost?
 		v, lerr := realLoad(dir, fname, after, d, importEnc, true)
 		what := "bytes"
+		if f == option.FIXED && d.positions == nil {
+			// the file was laid out for AUTOMATIC positions (one blank between the columns) and read that way: the
+			// updated file must still be
+			if lerr != nil {
+				extra["reread_with_automatic_positions"] = "error: " + firstLine(lerr.Error())
+			} else {
+				extra["reread_with_automatic_positions"] = clip(fromView(v).String())
+				extra["table_expected"] = clip(expected(t, d).String())
+				if fromView(v).equal(expected(t, d)) {
+					lawFail(o, "dialect:fixed:automatic_positions_layout_bytes", replay(extra))
+					return
+				}
+			}
+			lawFail(o, "dialect:fixed:automatic_positions_layout_not_kept", replay(extra))
+			return
+		}
 		if lerr != nil {
 			what = "unloadable"
 		} else {
@@ -1042,6 +1076,7 @@ func main() {
 		}
 		csvqBin = buildCsvq(scratch)
 		corpus(o, scratch)
+		driftCorpus(o, scratch)
 		altCorpus(o, scratch)
 		sessionFlagCorpus(o, scratch)
 		jspellCorpus(o, scratch)
@@ -1058,7 +1093,11 @@ func main() {
 			case 4, 5, 6:
 				decCase(g, o, scratch)
 			case 18:
-				autoCase(g, o, scratch)
+				if (i/20)%4 == 0 {
+					driftCase(g, o, scratch)
+				} else {
+					autoCase(g, o, scratch)
+				}
 			case 7:
 				jdecCase(g, o, scratch)
 			case 8, 9, 10, 16:
